@@ -222,3 +222,75 @@ func init() {
 	reg("strings.ToLower", mk('A', 'Z', 32))
 	reg("strings.ToUpper", mk('a', 'z', 0x100-32))
 }
+
+func init() {
+	// ContainsAny / IndexAny for ASCII character sets (concrete chars)
+	anyOf := func(e *Exec, c *Term, chars string) *Term {
+		r := e.tt.False
+		for i := 0; i < len(chars); i++ {
+			r = e.tt.Or(r, e.tt.Eq(c, e.tt.BV(8, uint64(chars[i]))))
+		}
+		return r
+	}
+	asciiSet := func(e *Exec, v Value) string {
+		chars := e.mustConcStr(v, "character set")
+		for i := 0; i < len(chars); i++ {
+			if chars[i] >= 0x80 {
+				unsupported("non-ASCII character set in ContainsAny/IndexAny")
+			}
+		}
+		return chars
+	}
+	reg("strings.ContainsAny", func(fr *frame, args []Value) Value {
+		e := fr.e
+		chars := asciiSet(e, args[1])
+		r := e.tt.False
+		for _, c := range bytesOf(args[0]) {
+			r = e.tt.Or(r, anyOf(e, c, chars))
+		}
+		return r
+	})
+	reg("strings.IndexAny", func(fr *frame, args []Value) Value {
+		e := fr.e
+		chars := asciiSet(e, args[1])
+		s := bytesOf(args[0])
+		r := e.tt.BV(64, ^uint64(0))
+		for i := len(s) - 1; i >= 0; i-- {
+			r = e.tt.Ite(anyOf(e, s[i], chars), e.tt.BV(64, uint64(i)), r)
+		}
+		return r
+	})
+
+	// regexp models: backslash un-escaping patterns with replacement "$1"
+	regexModels["ReplaceAllString"] = func(fr *frame, pattern string, args []Value) (Value, bool) {
+		e := fr.e
+		repl, ok := concStr(args[1].(Str))
+		if !ok || repl != "$1" {
+			return nil, false
+		}
+		var skipBackslash bool
+		switch pattern {
+		case `\\([^\\])`:
+			skipBackslash = false // a backslash followed by a backslash is not a match
+		case `(?s)\\(.)`:
+			skipBackslash = true
+		default:
+			return nil, false
+		}
+		s := args[0].(Str).b
+		var out []*Term
+		bs := e.tt.BV(8, '\\')
+		for i := 0; i < len(s); {
+			if i+1 < len(s) && e.branch(e.tt.Eq(s[i], bs)) {
+				if skipBackslash || !e.branch(e.tt.Eq(s[i+1], bs)) {
+					out = append(out, s[i+1])
+					i += 2
+					continue
+				}
+			}
+			out = append(out, s[i])
+			i++
+		}
+		return Str{out}, true
+	}
+}
